@@ -278,6 +278,14 @@ def b_round(interp, x, nd=None):
     return V.s_round(x)
 
 
+def b_slice(interp, *args):
+    if len(args) == 1:
+        return slice(None, args[0])
+    if len(args) == 2:
+        return slice(args[0], args[1])
+    raise Unsupported("slice with a step")
+
+
 def b_type(interp, x):
     raise Unsupported("type()")
 
@@ -311,6 +319,7 @@ BUILTINS = dict(
     divmod=b_divmod,
     print=b_print,
     round=b_round,
+    slice=b_slice,
 )
 # exception classes referenced by name in ``except`` clauses
 for _e in ("ValueError", "TypeError", "KeyError", "AttributeError", "OSError", "FileNotFoundError", "SystemExit", "StopIteration", "RuntimeError", "ModuleNotFoundError"):
